@@ -170,3 +170,98 @@ Example C07_catalog_concrete :
   map trees_used (crun (h ++ [All (Measure c Reference)]) (c_fresh 3)) = repeat (built_for b) 3 /\
   map bfile (crun (h ++ [All (Measure c Reference)]) (c_fresh 3)) = repeat (Some b) 3.
 Proof. vm_compute. repeat split; reflexivity. Qed.
+
+(* ---------- processes: steps of a history are executed by the measuring process itself, by
+   the workers of a multiprocessing pool, or by a child process; a process may keep unpickled
+   trees in memory (the code keeps nothing: policy NoMemo) ---------- *)
+
+(* the cache directory evolves as in the unlabelled history, whoever executes the steps and
+   whatever the processes remember *)
+Theorem C07_files_independent_of_executor : forall pol h ps,
+  disk (fst (prun pol h ps)) = run (map erase h) (disk ps).
+Proof. exact prun_disk. Qed.
+Print Assumptions C07_files_independent_of_executor.
+
+(* after ANY labelled history (sequential steps, pooled steps, steps in child processes, peeks, in
+   any mixture) a measurement executed by anyone works with the trees of the requested binning *)
+Theorem C07_process_independent : forall h x c r ps,
+  valid_edges (c_edges c) = true -> Inv (disk ps) ->
+  pused NoMemo (h ++ [Do x (Measure c r)]) ps = built_for (role_binning c r).
+Proof. exact process_independent. Qed.
+Print Assumptions C07_process_independent.
+
+(* = the trees of the same measurement on a freshly created cache, executed sequentially *)
+Theorem C07_process_independent_fresh : forall h x c r ps,
+  valid_edges (c_edges c) = true -> Inv (disk ps) ->
+  pused NoMemo (h ++ [Do x (Measure c r)]) ps = pused NoMemo [Do Self (Measure c r)] p_fresh.
+Proof. exact process_independent_fresh. Qed.
+Print Assumptions C07_process_independent_fresh.
+
+(* BinnedTrees(patch).trees in the measuring process returns the content of the trees file *)
+Theorem C07_peek_returns_trees_file : forall h ps,
+  pused NoMemo (h ++ [Peek]) ps =
+  match bfile (run (map erase h) (disk ps)) with
+  | None => None
+  | Some _ => tfile (run (map erase h) (disk ps))
+  end.
+Proof. exact peek_nomemo. Qed.
+Print Assumptions C07_peek_returns_trees_file.
+
+(* not vacuous: a process that keeps the unpickled trees and forgets them only when IT rebuilds is
+   refuted by a history that mixes executors (sequential, child process, sequential) ... *)
+Theorem C07_memo_own_invalidate_refuted :
+  exists h x c r, valid_edges (c_edges c) = true /\ PInv p_fresh /\
+    pused MemoOwnInvalidate (h ++ [Do x (Measure c r)]) p_fresh <> built_for (role_binning c r) /\
+    exists zs, option_map (fun t => tree_counts t zs) (pused MemoOwnInvalidate (h ++ [Do x (Measure c r)]) p_fresh)
+               <> Some (tree_counts (role_binning c r) zs).
+Proof. exact memo_own_invalidate_refuted. Qed.
+Print Assumptions C07_memo_own_invalidate_refuted.
+
+(* ... by a pooled measurement right after a sequential one (the counting workers inherit the
+   measuring process' memory) ... *)
+Theorem C07_memo_own_invalidate_refuted_in_pool :
+  exists h c r, valid_edges (c_edges c) = true /\ PInv p_fresh /\
+    pused MemoOwnInvalidate (h ++ [Do Pool (Measure c r)]) p_fresh <> built_for (role_binning c r) /\
+    exists zs, option_map (fun t => tree_counts t zs) (pused MemoOwnInvalidate (h ++ [Do Pool (Measure c r)]) p_fresh)
+               <> Some (tree_counts (role_binning c r) zs).
+Proof. exact memo_own_invalidate_refuted_in_pool. Qed.
+Print Assumptions C07_memo_own_invalidate_refuted_in_pool.
+
+(* ... and by a peek after a rebuild in a child process *)
+Theorem C07_memo_own_invalidate_stale_peek :
+  exists h zs, option_map (fun t => tree_counts t zs) (pused MemoOwnInvalidate (h ++ [Peek]) p_fresh)
+               <> option_map (fun t => tree_counts t zs) (pused NoMemo (h ++ [Peek]) p_fresh).
+Proof. exact memo_own_invalidate_stale_peek. Qed.
+Print Assumptions C07_memo_own_invalidate_stale_peek.
+
+(* while histories executed by ONE process throughout, or never by the measuring process itself,
+   cannot tell that policy from the code's: only mixed histories explore the difference *)
+Theorem C07_memo_same_process_sound : forall h c r ps,
+  all_self h = true -> valid_edges (c_edges c) = true -> PInv ps ->
+  pused MemoOwnInvalidate (h ++ [Do Self (Measure c r)]) ps = built_for (role_binning c r).
+Proof. exact memo_same_process_sound. Qed.
+Print Assumptions C07_memo_same_process_sound.
+
+Theorem C07_memo_all_forked_sound : forall h x c r ps,
+  all_forked h = true -> valid_edges (c_edges c) = true -> Inv (disk ps) -> mem ps = None ->
+  pused MemoOwnInvalidate (h ++ [Do x (Measure c r)]) ps = built_for (role_binning c r).
+Proof. exact memo_all_forked_sound. Qed.
+Print Assumptions C07_memo_all_forked_sound.
+
+(* non-vacuity with processes: (1/4,1/2,1] sequentially, a peek, [1/4,5/8,1) by a pool, the same by
+   a child with a forced rebuild, a peek; then [1/4,5/8,1) sequentially: the requested trees are
+   used (the record at 1/2 is in the first bin, the one at 1 in none), and the last peek of the
+   history returned the trees file as well *)
+Example C07_process_concrete :
+  let ca := {| c_edges := [1 # 4; 1 # 2; 1]; c_closed := false; c_scales := [(1 # 10, 3)] |} in
+  let cb := {| c_edges := [1 # 4; 5 # 8; 1]; c_closed := true; c_scales := [(1 # 10, 3)] |} in
+  let h := [Do Self (Measure ca Reference); Peek; Do Pool (Measure cb Reference);
+            Do Child (Build (Some (c_edges cb, true)) true); Peek] in
+  let zs := [1 # 4; 1 # 2; 1 # 2; 1] in
+  pused NoMemo (h ++ [Do Self (Measure cb Reference)]) p_fresh = built_for (Some (c_edges cb, true)) /\
+  option_map (fun t => tree_counts t zs) (pused NoMemo (h ++ [Do Self (Measure cb Reference)]) p_fresh)
+    = Some (true, [3; 0]%nat) /\
+  option_map (fun t => tree_counts t zs) (pused NoMemo h p_fresh) = Some (true, [3; 0]%nat) /\
+  option_map (fun t => tree_counts t zs) (pused MemoOwnInvalidate (h ++ [Do Self (Measure cb Reference)]) p_fresh)
+    = Some (true, [2; 1]%nat).
+Proof. vm_compute. repeat split; reflexivity. Qed.
